@@ -221,6 +221,7 @@ def _after_dd_case(q, verb, ansi, n, hv, short, raises, vbefore):
 def after_dd(q: bool, verb: int, ansi: int, n: bool, hv: int, short: bool, raises: bool, vbefore: int) -> bool:
     """
     pre: 0 <= verb <= 3 and 0 <= ansi <= 2 and 0 <= hv <= 2 and 0 <= vbefore <= 3
+    pre: vbefore == PART["vbefore"]
     post: _
     """
     return untraced(_after_dd_case, conc_bool(q), conc_int(verb, 0, 3), conc_int(ansi, 0, 2), conc_bool(n), conc_int(hv, 0, 2), 1 if conc_bool(short) else 0, conc_bool(raises), conc_int(vbefore, 0, 3))
@@ -243,6 +244,8 @@ def conditions(tier):
         for verb in range(4):
             conds.append({"name": "switches[%s,%s]" % (BASES[base][2].replace(" ", "_"), VERB[verb] or "normal"), "fn": switches, "timeout": t, "part": {"base": base, "verb": verb},
                           "bounds": "command %r, verbosity switch %s; symbolic: quiet, --ansi/--no-ansi, no-interaction, help/version, long/short spelling, insertion position, switch order, handler raises" % (BASES[base][2], VERB[verb])})
-    conds.append({"name": "after_dd", "fn": after_dd, "timeout": t, "bounds": "echo a [-v|-vv|-vvv] -- <switches>: every subset as above, long/short, handler raises or not"})
+    for vb in range(4):
+        conds.append({"name": "after_dd[before=%s]" % (VERB[vb] or "none"), "fn": after_dd, "timeout": t, "part": {"vbefore": vb},
+                      "bounds": "echo a %s -- <switches>: every subset as above, long/short, handler raises or not" % (VERB[vb] or "")})
     conds.append({"name": "switches_twin", "fn": switches_twin, "timeout": t, "expect": "refute", "part": {"base": 0, "verb": 2}, "bounds": "reachability twin"})
     return conds
